@@ -89,9 +89,12 @@ class subset(ContractBase):
     opaque_strings = True
     inline_callees = ['dawgie.db.shelve.util.construct']
 
+    defaults = {'parents': None}
+    none_as_empty = ['parents']
+
     def requires(c):
         p = c.sk('p', INT)
-        return {'with-parents': c['parents'] != ListSet(INT).empty(), 'ids-are-naturals': Implies(c['parents'][p], p >= 0)}
+        return {'ids-are-naturals': Implies(c['parents'][p], p >= 0)}
 
     @staticmethod
     def _spec(c, res, done):
@@ -99,8 +102,10 @@ class subset(ContractBase):
         p = z3.Const('sp_p', z3.IntSort())
         tab = c['from_table']
         hit = z3.Exists([p], And(done[p], selects_code(k, c['name'], p)))
-        return {'only-selected': Implies(Not(TABLE.opt.is_none(res[k])), And(res[k] == tab[k], hit)),
-                'all-selected': Implies(And(hit, Not(TABLE.opt.is_none(tab[k]))), res[k] == tab[k])}
+        given = c['parents'] != ListSet(INT).empty()        # (without parents the function selects by bare prefix: not specified here)
+        return {'only-selected': Implies(And(given, Not(TABLE.opt.is_none(res[k]))), And(res[k] == tab[k], hit)),
+                'all-selected': Implies(And(given, hit, Not(TABLE.opt.is_none(tab[k]))), res[k] == tab[k]),
+                'a-sub-table': Implies(Not(TABLE.opt.is_none(res[k])), res[k] == tab[k])}
 
     def ensures(c):
         return subset._spec(c, c.result, c['parents'])
@@ -193,3 +198,87 @@ class append(ContractBase):
             'other-names-untouched': Implies(k != full_name, t1[k] == t0[k]),
             'ids-never-reassigned': Implies(And(0 <= i, i < INDEX.len(x0)), INDEX.arr(x1)[i] == INDEX.arr(x0)[i])})
         return out
+
+
+# ------------------------------------------------------------------------------------------------ shelve.remove
+W.declare_global('DBI.is_open', BOOL)
+W.declare_global('DBI.is_reopened', BOOL)
+PRIMET = MapOf(STR, ATOM)
+W.declare_global('DBI.tables.prime', PRIMET)
+SI = SetOf(INT)
+KEYPARTS = ('run', 'tgt', 'task', 'alg', 'sv', 'val')
+
+
+def pkey(*a):
+    """str((run, target id, task id, alg id, sv id, value id)): the textual primary key"""
+    return z3.Function('prime_key_text', *([z3.IntSort()] * 6 + [STR.sort()]))(*a)
+
+
+def part(name, k):
+    """the numbers a textual primary key was printed from (str of a tuple of ints is injective)"""
+    return z3.Function('prime_key_' + name, STR.sort(), z3.IntSort())(k)
+
+
+def pkey_axioms(c):
+    xs = z3.Ints('pk_r pk_t pk_k pk_a pk_s pk_v')
+    k = pkey(*xs)
+    q = QHyp(list(xs), And(*[part(n, k) == x for n, x in zip(KEYPARTS, xs)]), 'prime-key.injective',
+             triggers=[(z3.Function('prime_key_text', *([z3.IntSort()] * 6 + [STR.sort()])), (0, 1, 2, 3, 4, 5))])
+    return [q]
+
+
+@contract(W, 'dawgie/db/shelve/__init__.py', 'remove', props=['C08'])
+class remove(ContractBase):
+    """every primary entry of the run and target whose algorithm, state-vector and value ids are among the ids selected
+    for the three names goes - all versions of each, not just the first found - and no other entry is touched"""
+    params = {'runid': INT, 'tn': STR, 'taskn': STR, 'algn': STR, 'svn': STR, 'vn': STR}
+    modifies = ['DBI.tables.prime']
+    raises = {'RuntimeError': lambda c: Or(Not(c.old.g('DBI.is_open')), c.old.g('DBI.is_reopened')),
+              'KeyError': lambda c: Or(TABLE.opt.is_none(c.old.g('DBI.tables.target')[c['tn']]), TABLE.opt.is_none(c.old.g('DBI.tables.task')[c['taskn']]))}
+    opaque_strings = True
+    abstract = {"str((runid, tnid, tskid, algid, svid, vid))": lambda ex, e: V(pkey(*[ex._num(ex.st.env[n]) for n in ('runid', 'tnid', 'tskid', 'algid', 'svid', 'vid')]), STR)}
+    locals = {'algids': Bag(INT), 'svids': Bag(INT), 'vids': Bag(INT)}
+    assumes = [pkey_axioms]
+
+    def requires(c):
+        k = c.sk('rk', STR)
+        nat = lambda t: Implies(Not(TABLE.opt.is_none(c.old.g(t)[k])), TABLE.opt.val(c.old.g(t)[k]) >= 0)
+        return {'ids-are-naturals': And(nat('DBI.tables.target'), nat('DBI.tables.task'), nat('DBI.tables.alg'), nat('DBI.tables.state'), nat('DBI.tables.value'))}
+
+    @staticmethod
+    def _addressed(c, A, S, Vs, k):
+        """k is the key of (run, target, task, a, s, v) for some a in A, s in S, v in Vs"""
+        run = c['runid']
+        tn = TABLE.opt.val(c.old.g('DBI.tables.target')[c['tn']])
+        tk = TABLE.opt.val(c.old.g('DBI.tables.task')[c['taskn']])
+        a, s_, v = part('alg', k), part('sv', k), part('val', k)
+        return And(A[a], S[s_], Vs[v], k == pkey(run, tn, tk, a, s_, v))
+
+    @staticmethod
+    def _state(c, addressed):
+        k = c.sk('k', STR)
+        P0, P1 = c.old.g('DBI.tables.prime'), c.cur.g('DBI.tables.prime')
+        return {'prime': P1[k] == If(addressed(k), PRIMET.opt.none(), P0[k])}
+
+    def ensures(c):
+        A, S, Vs = c.loc('algids'), c.loc('svids'), c.loc('vids')
+        return remove._state(c, lambda k: remove._addressed(c, A, S, Vs, k))
+
+    def _inv_a(c):
+        A, S, Vs = c.loc('algids'), c.loc('svids'), c.loc('vids')
+        return remove._state(c, lambda k: remove._addressed(c, c.done, S, Vs, k))
+
+    def _inv_s(c):
+        A, S, Vs = c.loc('algids'), c.loc('svids'), c.loc('vids')
+        oa = c.outer_done('for algid in algids')
+        one = z3.Store(SI.empty(), c.loc('algid'), True)
+        return remove._state(c, lambda k: Or(remove._addressed(c, oa, S, Vs, k), remove._addressed(c, one, c.done, Vs, k)))
+
+    def _inv_v(c):
+        A, S, Vs = c.loc('algids'), c.loc('svids'), c.loc('vids')
+        oa, os_ = c.outer_done('for algid in algids'), c.outer_done('for svid in svids')
+        onea = z3.Store(SI.empty(), c.loc('algid'), True)
+        ones = z3.Store(SI.empty(), c.loc('svid'), True)
+        return remove._state(c, lambda k: Or(remove._addressed(c, oa, S, Vs, k), remove._addressed(c, onea, os_, Vs, k), remove._addressed(c, onea, ones, c.done, k)))
+    loops = {'for algid in algids': Loop(inv=_inv_a, modifies=['DBI.tables.prime']), 'for svid in svids': Loop(inv=_inv_s, modifies=['DBI.tables.prime']),
+             'for vid in vids': Loop(inv=_inv_v, modifies=['DBI.tables.prime'])}
